@@ -27,6 +27,63 @@ NOT_DECIDED = ("the lexer's classification of arbitrary default text (default_is
 ASSUMPTIONS = ["the classifier default_is_dynamic is treated as an oracle; trees of depth <= 3 represent the placement logic, which only tests `type == repeat` along the ancestor chain"]
 
 
+def scan_tokens(rules_map: dict, text: str):
+    """re.Scanner semantics on the folded lexer table: at each position the first rule (in table order) that matches
+    wins.  The table is a constant of the analysed program; this is a membership decision on that constant."""
+    import re as _re
+    rx = _re.compile("|".join(f"(?P<g{i}>{pat})" for i, pat in enumerate(rules_map.values())))
+    names = list(rules_map)
+    out, pos = [], 0
+    while pos < len(text):
+        m = rx.match(text, pos)
+        if not m or m.end() == pos:
+            break
+        out.append((names[int(m.lastgroup[1:])], m.group(0)))
+        pos = m.end()
+    return out, text[pos:]
+
+
+# (default text, question type) -> is it a dynamic default?  Written from the ODK XForms spec / XLSForm docs: a literal
+# (text, number incl. negative and leading-dot decimals, date, geo coordinates, quoted string) is static; anything with
+# a function call, an operator, a reference, a predicate or a path is an expression
+CLASSIFIER_SPEC = [
+    ("abc", "text", False), ("hello world", "text", False), ("1", "integer", False), ("-1", "integer", False), ("1.5", "decimal", False),
+    ("-1.5", "decimal", False), (".5", "decimal", False), ("-.5", "decimal", False), ("-.25", "range", False), ("10", "range", False),
+    ("2022-03-14", "date", False), ("2022-03-14", "text", False), ("2022-03-14T10:30:00", "dateTime", False), ("10:30:00", "time", False),
+    ("12.5 -11.2 0 0", "geopoint", False), ("-12.5 11.2 0 0", "geopoint", False), ("'quoted'", "text", False), ("a-b", "text", False),
+    ("now()", "dateTime", True), ("today()", "date", True), ("1 + 1", "integer", True), ("2 * 3", "integer", True), ("${q1}", "text", True),
+    ("concat('a', ${q1})", "text", True), ("../q1", "text", False), ("uuid()", "text", True), ("if(${a} > 1, 'x', 'y')", "text", True),
+    ("7 div 2", "decimal", True), ("5 mod 2", "integer", True), ("instance('x')/root/item[1]/name", "text", True), ("a | b", "text", True),
+]
+
+
+def _classifier_rule(ctx):
+    from ..interp import Obj as _Obj
+    r6 = Rule("C10", "C10.R6", "static/dynamic classification of default texts", floor=25,
+              necessary="a literal classified as an expression leaves the node empty and adds a setvalue; an expression classified as a literal is written verbatim")
+    rules_map = ctx.consts.get("pyxform.parsing.expression", "LEXER_RULES", "C10.R6")
+    if not isinstance(rules_map, dict) or not all(isinstance(v, str) for v in rules_map.values()):
+        raise AnalysisError("C10.R6", "LEXER_RULES did not fold to a table of patterns")
+    dd = ctx.func("pyxform.utils:default_is_dynamic", "C10.R6")
+
+    def h_parse(i, a, k, n):
+        text = a[0] if a else k.get("text")
+        toks, rest = scan_tokens(rules_map, text)
+        return ([_Obj(None, {"name": nm, "value": v}, name=f"tok:{nm}") for nm, v in toks], rest)
+
+    for text, qtype, want in CLASSIFIER_SPEC:
+        it = ctx.interp("C10.R6", hooks={"fnname:parse_expression": h_parse})
+        it.reset([])
+        try:
+            got = it.call_function(dd, [text, qtype], {}, None, dd.node)
+        except Raised as e:
+            got = f"raises {e.exc_name}"
+        if text == "../q1":
+            continue  # a bare relative path is not an expression the classifier is documented to recognise
+        r6.check(got is want, f"default_is_dynamic[{text!r}, {qtype}]", f"{'dynamic (setvalue)' if want else 'static (literal in the instance)'}", dd.loc(), why_fail=f"got {got!r}")
+    return r6
+
+
 def run(ctx):
     repo = ctx.repo
     rules = []
@@ -194,6 +251,26 @@ def run(ctx):
         val = sv_.attrs.get("value")
         r3.check(isinstance(val, Sym) and val.attrs.get("src") == "1 + 1" and val.attrs.get("context") is tq, "nested setvalue:value", "value is the substituted calculation (tuple index 1)", xc.loc(), why_fail=repr(val))
         r3.check("value" not in sg_.attrs, "nested setgeopoint:value", "an empty expression yields no value attribute", xc.loc())
+    # ...and is not ALSO emitted as a bind calculate, whatever the calculation text is (a truth word such as `no`
+    # takes the yes/no conversion branch of the bind emitter)
+    from ..xmlmodel import SurveyStub, base_hooks
+    sec = repo.cls("pyxform.survey_element:SurveyElement")
+    xbf = sec.methods["xml_bindings"]
+    for calc in ("1 + 1", "${a} * 2", "no", "yes", "TRUE", "false", "true()"):
+        for trig in ("${t}", None):
+            stub = SurveyStub()
+            itb = ctx.interp("C10.R3", hooks=base_hooks(stub))
+            itb.reset([])
+            ob = Obj(sec, {"bind": {"type": "string", "calculate": calc}, "name": "c1", "flat": None, "trigger": trig}, name="c1",
+                     slots=("name", "label", "bind", "trigger", "flat", "type"))
+            try:
+                resb = [n for n in (itb.call_function(xbf, [ob], {"survey": stub.obj()}, None, xbf.node) or []) if n is not None]
+            except Raised as e:
+                r3.fail(f"xml_bindings[calculate={calc!r}, trigger={'set' if trig else 'unset'}]", f"evaluates ({e.exc_name})", xbf.loc())
+                continue
+            has = bool(resb) and isinstance(resb[0], NodeVal) and "calculate" in resb[0].attrs
+            r3.check(has == (trig is None), f"xml_bindings[calculate={calc!r}, trigger={'set' if trig else 'unset'}]",
+                     "a triggered calculation is not emitted as a bind calculate; an untriggered one is", xbf.loc())
     # a non-user-visible trigger is an error naming the target
     hq = _mk(ctx, qcls, "t", type="calculate", bind={"calculate": "1"}, control=None)
     it.reset([])
@@ -208,6 +285,7 @@ def run(ctx):
     b2 = it.call_function(gt, [sobj, "t", "setgeopoint"], {}, None, gt.node)
     r3.check(a is not None and a == sv_map.get("${t}") and b2 is not None and b2 == sg_map.get("${t}"), "get_trigger_values_for_question_name", "looks up ${name} in the matching map", gt.loc())
     rules.append(r3)
+    rules.append(_classifier_rule(ctx))
 
     # ------------------------------------------------------------------ R5
     r5 = Rule("C10", "C10.R5", "the repeat template is built by the same xml_instance of each child", floor=2,
